@@ -340,14 +340,49 @@ def _seq_items(seq):
     return out
 
 
+def canvas_item_rows(item):
+    """Rows of the canvas of a CanvasCombine item (canvas, position, focus)."""
+    return item[0].nrows
+
+
+# the list handed to CanvasCombine when it is built in a loop: it carries the prefix sums of the canvases' rows
+COMBINE_LIST = ListOf(Tup(CANVAS, Int, Bool), measure=canvas_item_rows)
+
+
 class _CanvasCombineContract(Contract):
     target = "urwid/canvas.py:CanvasCombine"
     property = ()
     assumed = True
-    notes = "canvas protocol: rows add up, width of the parts, cursor of the last part that has one shifted by the rows above (owned by C02)"
+    notes = "canvas protocol: rows add up, width of the parts, cursor of the last part that has one shifted by the rows above; for a list of symbolic length only rows and width (owned by C02)"
+
+    def apply_symbolic(self, ip, st, seq, site):
+        """A list of (canvas, position, focus) of symbolic length that carries the prefix sums of the canvases' rows
+        (`COMBINE_LIST` below): rows add up, the width is that of the parts (which must agree: obligation, stated for
+        an arbitrary index), `noshards` only when empty.  The cursor of the result is left unspecified here."""
+        from pyvc import seqs as Q
+
+        if getattr(seq, "measure", None) is not canvas_item_rows:
+            raise Unsupported("CanvasCombine over a symbolic list without the canvas-rows prefix sums (shape COMBINE_LIST)")
+        m = Q.seq_len(seq)
+        r = CCANVAS.fresh(st, "combined")
+        k = V.arbitrary("CanvasCombine.k")
+        st.oblige(f"{ip.task.name}/call-pre@CanvasCombine:{(site or '').split(':')[-1]}/equal-widths",
+                  implies(both(0 <= k, k < m), Q.seq_get(seq, k)[0].ncols == Q.seq_get(seq, 0)[0].ncols), "call-pre")
+        st.assume(r.nrows == seq.psum(m))
+        st.assume(implies(m > 0, both(r.ncols == Q.seq_get(seq, 0)[0].ncols, neg(r.noshards))))
+        st.assume(implies(m <= 0, both(r.ncols == 0, r.noshards, mk_bool(r.cursor.isnone))))
+        st.event("combine", seq, r)
+        ip.task.used_contracts.add(self.target)
+        return r
 
     def apply(self, ip, st, f, args, kwargs, site=None):
-        runs = _seq_items(args[0] if args else kwargs["canvas_info"])
+        from pyvc.seqs import LRef, SSeq
+
+        arg = args[0] if args else kwargs["canvas_info"]
+        inner = arg.seq if isinstance(arg, LRef) else arg
+        if isinstance(inner, SSeq) and not getattr(inner, "parts", None) and not hasattr(inner, "const_elt"):
+            return self.apply_symbolic(ip, st, inner, site)
+        runs = _seq_items(arg)
         r = CCANVAS.fresh(st, "combined")
         rows = 0
         cursor_none = True
